@@ -250,6 +250,7 @@ impl Monitor for C06 {
             return;
         }
         let n = nl[((idx / 3) % nl.len() as u64) as usize];
+        let n = super::jitter_n(cfg, n, 3, 64, &mut rng);
         let k = kind(idx % 3, n);
         let class = CLASSES[((idx / (3 * nl.len() as u64)) % CLASSES.len() as u64) as usize];
         let rep = idx / (3 * nl.len() * CLASSES.len()) as u64;
